@@ -40,6 +40,10 @@ fn run(id: &str, tier: Tier, replay: Option<(String, serde_json::Value)>) -> i32
             // costs seconds, so shrinking is kept short
             std::env::set_var("VERIF_THREADS", "1");
             std::env::set_var("VERIF_MAX_SHRINK", "6");
+        // a failing scenario waits out every deadline (silence + delivery + poke + stop): well above the default watchdog
+        if std::env::var_os("VERIF_CASE_TIMEOUT_S").is_none() {
+            std::env::set_var("VERIF_CASE_TIMEOUT_S", "400");
+        }
             let rep = Report::with_replay("C20", tier, c20::LEVEL, c20::RULE, replay);
             c20::check(&rep);
             rep.finish()
